@@ -78,10 +78,107 @@ def to_poly(t, limit=200000, _memo=None):
     return r
 
 
+ONE = {(): Fraction(1)}
+
+
+def to_rat(t, limit=200000, _memo=None):
+    """exact rational-function normal form (numerator, denominator) of a z3 arithmetic term: like to_poly, but division is
+    followed structurally.  The denominator is a product of the denominators met (no cancellation is attempted)."""
+    memo = _memo if _memo is not None else {}
+    key = ('rat', t.get_id())
+    if key in memo:
+        return memo[key]
+    r = None
+    if z3.is_app(t) and not (z3.is_int_value(t) or z3.is_rational_value(t)):
+        k = t.decl().kind()
+        ch = t.children()
+        if k in (z3.Z3_OP_ADD, z3.Z3_OP_SUB):
+            parts = [to_rat(c, limit, memo) for c in ch]
+            if all(q == ONE for _, q in parts):
+                num = parts[0][0]
+                for pp, _ in parts[1:]:
+                    num = _add(num, pp, 1 if k == z3.Z3_OP_ADD else -1)
+                r = (num, ONE)
+            else:
+                num, den = parts[0]
+                for pp, qq in parts[1:]:
+                    if qq == den:
+                        num = _add(num, pp, 1 if k == z3.Z3_OP_ADD else -1)
+                    else:
+                        num = _add(_mul(num, qq, limit), _mul(pp, den, limit), 1 if k == z3.Z3_OP_ADD else -1)
+                        den = _mul(den, qq, limit)
+                r = (num, den)
+        elif k == z3.Z3_OP_UMINUS:
+            pp, qq = to_rat(ch[0], limit, memo)
+            r = (_add({}, pp, -1), qq)
+        elif k == z3.Z3_OP_MUL:
+            num, den = ONE, ONE
+            for c in ch:
+                pp, qq = to_rat(c, limit, memo)
+                num = _mul(num, pp, limit)
+                if qq != ONE:
+                    den = _mul(den, qq, limit)
+            r = (num, den)
+        elif k == z3.Z3_OP_TO_REAL:
+            r = to_rat(ch[0], limit, memo)
+        elif k == z3.Z3_OP_DIV:
+            p1, q1 = to_rat(ch[0], limit, memo)
+            p2, q2 = to_rat(ch[1], limit, memo)
+            if p2:
+                r = (_mul(p1, q2, limit) if q2 != ONE else p1, _mul(q1, p2, limit) if q1 != ONE else p2)
+    if r is None:
+        r = (to_poly(t, limit), ONE)
+    memo[key] = r
+    return r
+
+
+def _pow(p, k, limit):
+    r = ONE
+    for _ in range(k):
+        r = _mul(r, p, limit)
+    return r
+
+
+def reduce_power_atom(p, aid, n, N, D, limit=200000):
+    """p modulo the relation a^n == N / D for the atom a (D != 0): the result equals p * D^K for a K >= 0, so it is zero iff p is"""
+    K = 0
+    for m in p:
+        K = max(K, m.count(aid) // n)
+    if K == 0:
+        return p, False
+    out = {}
+    cache = {}
+    for m, c in p.items():
+        e = m.count(aid)
+        k = e // n
+        rest = tuple(x for x in m if x != aid) + (aid,) * (e % n)
+        key = (k, K - k)
+        if key not in cache:
+            f = _pow(N, k, limit)
+            if D != ONE:
+                f = _mul(f, _pow(D, K - k, limit), limit)
+            cache[key] = f
+        term = _mul({tuple(sorted(rest)): c}, cache[key], limit)
+        out = _add(out, term)
+        if len(out) > limit:
+            raise TooBig()
+    return out, True
+
+
 def reduce_trig(p, rename, pairs, limit=200000):
     """normal form modulo the listed ground trigonometric relations:
     rename: atom id -> (sign, atom id)   [cos(-x) = cos x, sin(-x) = -sin x]
     pairs:  sin atom id -> cos atom id   [sin^2 = 1 - cos^2]"""
+    rat = {k: (v if isinstance(v, tuple) else (2, v, ONE)) for k, v in pairs.items() if isinstance(v, (tuple, dict))}
+    if rat:
+        pairs = {k: v for k, v in pairs.items() if not isinstance(v, (tuple, dict))}
+        for _ in range(24):
+            changed = False
+            for aid, (n, N, D) in rat.items():
+                p, ch = reduce_power_atom(p, aid, n, N, D, limit)
+                changed = changed or ch
+            if not changed:
+                break
     out = {}
     work = list(p.items())
     steps = 0
